@@ -166,3 +166,53 @@ def write_cfg(path, spec=None, init=None, next_=None, invariants=(), properties=
     lines.append('CHECK_DEADLOCK ' + ('TRUE' if deadlock else 'FALSE'))
     with open(path, 'w') as f:
         f.write('\n'.join(lines) + '\n')
+
+
+class AcceptorFailure(Exception):
+    pass
+
+
+def run_traces(ctx, sc, module, traces, name, nev, max_events=60000, invariants=(), heap='12g', timeout=3000, workers=None):
+    """Hand `traces` (list of JSON-able dicts) to the trace acceptor `module` (spec/<module>.tla, SPECIFICATION TraceSpec,
+    reads IOEnv.TRACE_FILE) in bounded chunks, one TLC run each, so that the deserialised file stays well inside the JVM
+    heap whatever the size of the tier.  nev(trace) = number of events (= steps) of a trace; every run must consume
+    exactly events + traces states.  Returns the concatenated PrintT values."""
+    import json
+    chunks, cur, n = [], [], 0
+    for t in traces:
+        k = nev(t)
+        if cur and n + k > max_events:
+            chunks.append(cur)
+            cur, n = [], 0
+        cur.append(t)
+        n += k
+    if cur:
+        chunks.append(cur)
+    printed = []
+    total = None
+    for ci, chunk in enumerate(chunks):
+        cname = name if len(chunks) == 1 else '%s-%d' % (name, ci + 1)
+        path = sc.file(cname + '.ndjson')
+        with open(path, 'w') as f:
+            for t in chunk:
+                f.write(json.dumps(t, separators=(',', ':')) + '\n')
+        cpath = sc.file(cname + '.cfg')
+        write_cfg(cpath, spec='TraceSpec', invariants=invariants)
+        kw = {'workers': workers} if workers else {}
+        r = run(os.path.join(SPEC, module + '.tla'), cpath, sc, env={'TRACE_FILE': path}, timeout=timeout, heap=heap, **kw)
+        if not os.environ.get('VERIF_KEEP_SCRATCH'):
+            os.remove(path)
+        want = sum(nev(t) for t in chunk) + len(chunk)
+        if not r.ok or r.distinct != want:
+            raise AcceptorFailure('%s run %d/%d: ok=%s violated=%s distinct=%s expected=%s errors=%s\n%s' % (
+                module, ci + 1, len(chunks), r.ok, r.violated, r.distinct, want, r.errors[:3], r.out[-2000:]))
+        printed += r.printed
+        if total is None:
+            total = r
+        else:
+            total.generated += r.generated
+            total.distinct += r.distinct
+            total.wall += r.wall
+            total.depth = max(total.depth or 0, r.depth or 0)
+    ctx.add_tlc(name if len(chunks) == 1 else '%s (%d acceptor runs)' % (name, len(chunks)), total)
+    return printed
